@@ -385,15 +385,20 @@ def r_namespace(c):
 def _ret_templates_trace(m):
     fd = m.func(FN + ".trace_call")
     out = {}
+    from pta.pat import find as _find
+    mk = _find(fd, "$f = FunctionDefinition($$names, $rt, constantdict($rets), tags=$$t)")
+    if len(mk) != 1:
+        raise AnalysisError("anchor vanished: FunctionDefinition(...) in trace_call")
+    rtv, retsv = mk[0]["$rt"], mk[0]["$rets"]
     for iff in ast.walk(fd):
         if not isinstance(iff, ast.If):
             continue
         rt = None
         key = None
         for st in iff.body:
-            if isinstance(st, ast.Assign) and ast.unparse(st.targets[0]) == "return_type":
+            if isinstance(st, ast.Assign) and ast.unparse(st.targets[0]) == rtv:
                 rt = ast.unparse(st.value).split(".")[-1]
-            if isinstance(st, ast.Assign) and ast.unparse(st.targets[0]) == "returns":
+            if isinstance(st, ast.Assign) and ast.unparse(st.targets[0]) == retsv:
                 v = st.value
                 if isinstance(v, ast.Dict) and len(v.keys) == 1:
                     key = _template(v.keys[0], {})
@@ -413,6 +418,11 @@ def _ret_templates_trace(m):
 def _ret_templates_call(m):
     fd = m.func(FN + ".FunctionDefinition.__call__")
     out = {}
+    from pta.pat import find as _find
+    cs = _find(fd, "$cs = Call(self, bindings=$$b, tags=$$t)") + _find(fd, "$cs = Call(self, bindings=$$b)")
+    if len(cs) != 1:
+        raise AnalysisError("anchor vanished: Call(self, ...) in FunctionDefinition.__call__")
+    csv = cs[0]["$cs"]
     for iff in ast.walk(fd):
         if not (isinstance(iff, ast.If) and isinstance(iff.test, ast.Compare)
                 and ast.unparse(iff.test.left) == "self.return_type"):
@@ -422,7 +432,7 @@ def _ret_templates_call(m):
             if not isinstance(r, ast.Return):
                 continue
             for sub in ast.walk(r.value):
-                if isinstance(sub, ast.Subscript) and ast.unparse(sub.value) == "call_site":
+                if isinstance(sub, ast.Subscript) and ast.unparse(sub.value) == csv:
                     env = {}
                     par = r.value
                     for comp in ast.walk(par):
